@@ -615,6 +615,19 @@ def run_cli_extras(case, ctx):
             cli_vcf(ctx, p1, segs, cc, sub, sex=word)
             ctx.state(("cli-sex", word, male_ref), nontrivial=True)
             ctx.stratum("cli:sex-word")
+    # a table without any chrX segment (nothing to guess the sex from): the stated sex still decides what chrY should hold
+    nox = [g for g in segs if g["chrom"] not in ("X", "chrX")]
+    p3 = os.path.join(tmpdir(), "cli", "NoX.cns")
+    write_table(p3, *seg_rows(nox))
+    for word, female in (("male", False), ("y", False), ("female", True), ("x", True)):
+        for male_ref in (False, True):
+            cc = {**c, "female": female, "male_ref": male_ref}
+            sub = {"sex_word": word, "segments": compact(nox), "table": "no chrX segment"}
+            for show in M.SHOWS:
+                cli_bed(ctx, [p3], nox, cc, show, sub, sex=word, op="bed-nox")
+            cli_vcf(ctx, p3, nox, cc, sub, sex=word)
+            ctx.state(("cli-sex-nox", word, male_ref), nontrivial=True)
+            ctx.stratum("cli:sex-word on a table without chrX")
     # labels: -i, --label-genes, default (sample id)  -- the listing itself must not change
     for extra in ([], ["-i", "LABEL"], ["--label-genes"]):
         for show in M.SHOWS:
